@@ -201,6 +201,8 @@ def run(ctx, ck):
     vecs = {e_.vector for e_ in rents}
     for p_, v_, st_ in rfinals:
         ents_here = [e_ for e_ in rents if e_.path is p_]
+        while isinstance(v_, ast.Call) and isinstance(v_.func, ast.Name) and v_.func.id in ('_upd', '_with') and v_.args:
+            v_ = v_.args[0]         # the vector before the element stores
         if isinstance(v_, ast.Name):
             if v_.id not in vecs:
                 ok, why = False, 'self.rhs is not the vector filled in the loop'
